@@ -98,13 +98,28 @@ Fixpoint pf_scan (l : list Z) (i n dot trunk : Z) : Z * Z * Z * Z :=
       else (i, n, dot, trunk)
   end.
 
-(* the optional exponent at b[i:] = rest; result (expExp, new i) *)
+(* for ; j < len(b) && '0' <= b[j] && b[j] <= '9'; j++ { if expExp < 1e15 { expExp = expExp*10 + int64(b[j]-'0') } }
+   over the suffix l = b[j:]; result (expExp, j) *)
+Fixpoint pf_expdigits (l : list Z) (e j : Z) : Z * Z :=
+  match l with
+  | c :: t =>
+      if is_digit c then
+        pf_expdigits t (if e <? 1000000000000000 then i64 (i64 (e * 10) + byte (c - 48)) else e) (j + 1)
+      else (e, j)
+  | [] => (e, j)
+  end.
+
+(* the optional exponent at b[i:] = rest; result (expExp, new i).  The accumulator saturates above 1e15,
+   every digit is consumed; without a digit nothing is consumed and expExp stays 0. *)
 Definition pf_exponent (rest : list Z) (i : Z) : Z * Z :=
   match rest with
   | c :: t =>
       if (c =? 101) || (c =? 69) then
-        let r := parse_int t in
-        if 0 <? snd r then (fst r, i + 1 + snd r) else (0, i)
+        let sgn := match t with s :: _ => (s =? 43) || (s =? 45) | [] => false end in
+        let negExp := match t with s :: _ => s =? 45 | [] => false end in
+        let startExp := i + 1 + (if sgn then 1 else 0) in
+        let r := pf_expdigits (if sgn then tl t else t) 0 startExp in
+        if startExp <? snd r then ((if negExp then i64 (- fst r) else fst r), snd r) else (0, i)
       else (0, i)
   | [] => (0, i)
   end.
@@ -250,10 +265,74 @@ Definition ad_print (b spare : list Z) (num dec : Z) : res (list Z) :=
   if num4 =? 0 then store b4 i4 48
   else r3 <-- put_digits 20 b4 i4 num4 ;; Ok (fst r3).
 
+(* ---- strconv.AppendFloat(b, f, 'f', dec, 64) of the standard library, as a specification: the exact value
+   m * 2^e of the float, scaled by 10^dec and rounded to an integer half-to-even, printed with dec decimals ---- *)
+
+(* n / d rounded to the nearest integer, ties to even (n >= 0, d > 0) *)
+Definition div_half_even (n d : Z) : Z :=
+  let q := n / d in
+  let r := n mod d in
+  if 2 * r <? d then q else if d <? 2 * r then q + 1 else if Z.even q then q else q + 1.
+
+(* |f| * 10^dec rounded half-even, f finite *)
+Definition f_scaled_half_even (f : f64) (dec : Z) : Z :=
+  match f with
+  | S754_finite _ m e =>
+      if 0 <=? e then Zpos m * 2 ^ e * 10 ^ dec else div_half_even (Zpos m * 10 ^ dec) (2 ^ (- e))
+  | _ => 0
+  end.
+
+Definition f_signbit (f : f64) : bool :=
+  match f with
+  | S754_zero s | S754_infinity s | S754_finite s _ _ => s
+  | S754_nan => false
+  end.
+
+(* decimal digits of n > 0, least significant first *)
+Fixpoint z_rdigits (fuel : nat) (n : Z) : list Z :=
+  if n =? 0 then []
+  else match fuel with
+       | O => []
+       | S f => (48 + n mod 10) :: z_rdigits f (n / 10)
+       end.
+Definition z_decimal (n : Z) : list Z :=
+  if n =? 0 then [48] else rev (z_rdigits (S (Z.to_nat (Z.log2 n))) n).
+(* the k low digits of m, least significant first *)
+Fixpoint z_frac_rdigits (k : nat) (m : Z) : list Z :=
+  match k with
+  | O => []
+  | S k' => (48 + m mod 10) :: z_frac_rdigits k' (m / 10)
+  end.
+
+Definition std_format_f (f : f64) (dec : Z) : list Z :=
+  let q := f_scaled_half_even f dec in
+  (if f_signbit f then [45] else []) ++ z_decimal (q / 10 ^ dec) ++
+  (if 0 <? dec then 46 :: rev (z_frac_rdigits (Z.to_nat dec) q) else []).
+
+(* n := len(b); for b[n-1] == '0' { n-- }; if b[n-1] == '.' { n-- }; b = b[:n]   on the reversed slice *)
+Fixpoint ad_drop_zeros (r : list Z) : res (list Z) :=
+  match r with
+  | c :: t => if c =? 48 then ad_drop_zeros t else Ok r
+  | [] => Panic
+  end.
+Definition ad_trim (b : list Z) : res (list Z) :=
+  r <-- ad_drop_zeros (rev b) ;;
+  match r with
+  | c :: t => if c =? 46 then Ok (rev t) else Ok (rev r)
+  | [] => Panic
+  end.
+
+Definition f9e18 : f64 := f_of_Z 9000000000000000000.
+
 Definition append_decimal (b spare : list Z) (f : f64) (dec : Z) : res (list Z) :=
   if f_is_nan f || f_is_inf f then Ok b
   else
     let dec := if (dec <? 0) || (17 <? dec) then 17 else dec in
+    if fle f9e18 (fmul (SFabs f) (pow10 dec)) then
+      (* does not fit in an int64: formatted by the standard library *)
+      let b1 := b ++ std_format_f f dec in
+      if 0 <? dec then ad_trim b1 else Ok b1
+    else
     let f := fmul f (pow10 dec) in
     let f := if fle fzero f then fadd f fhalf else fsub f fhalf in
     let num := f_to_i64 f in
